@@ -31,7 +31,7 @@ enum Op {
     Setup { kind: String, cap: usize, len0: usize, mem0: Vec<u8> },
     Open { ks: Vec<usize> },
     Write { bs: Vec<u8> },
-    Extend { bs: Vec<u8> },
+    Extend { bs: Vec<u8>, it: u8 },
     Advance { bs: Vec<u8> },
     Scribble { bs: Vec<u8> },
     Close,
@@ -49,6 +49,26 @@ fn usizes_of(v: &Value) -> Vec<usize> {
     v.as_array().map(|a| a.iter().map(|x| x.as_u64().unwrap_or(0) as usize).collect()).unwrap_or_default()
 }
 
+/// What the iterator handed to `extend` claims about its length.
+const IT_NAMES: [&str; 4] = ["exact", "nohint", "under", "over"];
+fn it_code(s: &str) -> u8 {
+    IT_NAMES.iter().position(|x| *x == s).unwrap_or_else(|| panic!("harness: unknown iterator kind {}", s)) as u8
+}
+/// An iterator over bytes with a hand-written `size_hint` (claims exactly `claim` items).
+struct Hinted<'a> {
+    inner: std::slice::Iter<'a, u8>,
+    claim: usize,
+}
+impl<'a> Iterator for Hinted<'a> {
+    type Item = u8;
+    fn next(&mut self) -> Option<u8> {
+        self.inner.next().cloned()
+    }
+    fn size_hint(&self) -> (usize, Option<usize>) {
+        (self.claim, Some(self.claim))
+    }
+}
+
 fn parse_op(a: &Value) -> Op {
     match a["a"].as_str().unwrap_or("") {
         "setup" => Op::Setup {
@@ -59,7 +79,7 @@ fn parse_op(a: &Value) -> Op {
         },
         "open" => Op::Open { ks: usizes_of(&a["ks"]) },
         "write" => Op::Write { bs: bytes_of(&a["bs"]) },
-        "extend" => Op::Extend { bs: bytes_of(&a["bs"]) },
+        "extend" => Op::Extend { bs: bytes_of(&a["bs"]), it: it_code(a["it"].as_str().unwrap_or("exact")) },
         "advance" => Op::Advance { bs: bytes_of(&a["bs"]) },
         "scribble" => Op::Scribble { bs: bytes_of(&a["bs"]) },
         "close" => Op::Close,
@@ -77,7 +97,7 @@ fn act_of(op: &Op) -> Value {
         Op::Setup { kind, cap, len0, mem0 } => json!({"a":"setup","kind":kind,"cap":cap,"len0":len0,"mem0":mem0}),
         Op::Open { ks } => json!({"a":"open","ks":ks}),
         Op::Write { bs } => json!({"a":"write","bs":bs}),
-        Op::Extend { bs } => json!({"a":"extend","bs":bs}),
+        Op::Extend { bs, it } => json!({"a":"extend","bs":bs,"it":IT_NAMES[*it as usize]}),
         Op::Advance { bs } => json!({"a":"advance","bs":bs}),
         Op::Scribble { bs } => json!({"a":"scribble","bs":bs}),
         Op::Close => json!({"a":"close"}),
@@ -182,7 +202,7 @@ impl Source {
                         let _ = cfg.ops;
                         Some(match rng.gen_range(0..20) {
                             0..=4 => Op::Write { bs: { let n = rand_len(rng, rem, true); rand_bytes(rng, n) } },
-                            5..=7 => Op::Extend { bs: { let n = rand_len(rng, rem, true); rand_bytes(rng, n) } },
+                            5..=7 => Op::Extend { bs: { let n = rand_len(rng, rem, true); rand_bytes(rng, n) }, it: rng.gen_range(0..4) },
                             8 | 9 => Op::Advance { bs: { let n = rand_len(rng, rem, false).min(rem); rand_bytes(rng, n) } },
                             10 => Op::Scribble { bs: { let n = rand_len(rng, rem, false).min(rem); rand_bytes(rng, n) } },
                             11..=13 if depth < cfg.maxdepth => Op::Open { ks: rand_chain(rng, rem) },
@@ -340,8 +360,20 @@ fn run_view<'d, 's>(mut b: BufferRef<'d, 's>, cx: &mut Cx, open_act: Value, dept
                 let r = b.write(&bs);
                 cx.push(act, Out { r: if r.is_ok() { "ok" } else { "cap" }, ..Default::default() }.rem(b.remaining()));
             }
-            Op::Extend { bs } => {
-                let r = b.extend(bs.iter().cloned());
+            Op::Extend { bs, it } => {
+                let r = match it {
+                    0 => b.extend(bs.iter().cloned()),
+                    1 => {
+                        let mut i = 0;
+                        b.extend(std::iter::from_fn(|| {
+                            let x = bs.get(i).cloned();
+                            i += 1;
+                            x
+                        }))
+                    }
+                    2 => b.extend(Hinted { inner: bs.iter(), claim: bs.len().saturating_sub(1) }),
+                    _ => b.extend(Hinted { inner: bs.iter(), claim: bs.len() + 1 }),
+                };
                 cx.push(act, Out { r: if r.is_ok() { "ok" } else { "cap" }, ..Default::default() }.rem(b.remaining()));
             }
             Op::Advance { bs } => {
@@ -1234,7 +1266,7 @@ fn cmd_drive(args: &[String]) {
 
 /// Compact plans for the Miri run (no JSON inside the interpreter): one plan per line, operations
 /// separated by ';', numbers by blanks:
-///   S <kind> <cap> <len0> <mem0...> ; O <ks...> ; W <bs...> ; E <bs...> ; A <bs...> ; X <bs...> ;
+///   S <kind> <cap> <len0> <mem0...> ; O <ks...> ; W <bs...> ; E <iterator kind 0..3> <bs...> ; A <bs...> ; X <bs...> ;
 ///   R <n> <bs (n bytes)...> <ks...> ; Q <bs...> ; C ; I ; U ; F
 fn parse_compact(line: &str) -> Vec<Op> {
     let mut ops = Vec::new();
@@ -1258,7 +1290,7 @@ fn parse_compact(line: &str) -> Vec<Op> {
             }
             "O" => Op::Open { ks: nums },
             "W" => Op::Write { bs: bytes(&nums) },
-            "E" => Op::Extend { bs: bytes(&nums) },
+            "E" => Op::Extend { bs: bytes(&nums[1..]), it: nums[0] as u8 },
             "A" => Op::Advance { bs: bytes(&nums) },
             "X" => Op::Scribble { bs: bytes(&nums) },
             "R" => {
